@@ -1,8 +1,9 @@
 #!/usr/bin/env python3
 """translate.py --repo /repo --out coq/Gen [--only a,b]
 Regenerates the Coq tables/layouts from the Rust sources. Fail-closed: any construct outside the
-grammar raises TranslateError; the failing generator's outputs are replaced by a *.FAILED marker
-(and the stale .v removed) so dependants cannot silently build against an old model."""
+grammar raises TranslateError; the failing generator is reported (status not ok,
+a *.FAILED marker) and its outputs are replaced by the committed baseline (the translation of the last source that could be
+translated), which serves the search for a failing input only - a run with a refusal never passes."""
 import sys, os, json, argparse, importlib, traceback
 sys.path.insert(0, os.path.dirname(os.path.abspath(__file__)))
 from rustparse import TranslateError
@@ -56,8 +57,24 @@ def main():
                 for ext in ('', 'o', 'ok', 'os'):
                     p = os.path.join(a.out, fn + ext)
                     if os.path.exists(p): os.remove(p)
+            # the refusal is the verdict of this run (status not ok -> the check reports a violation).  So that the SEARCH FOR A FAILING
+            # INPUT can still run, the outputs of the last source that could be translated (baseline/, committed, made by mkbaseline.py)
+            # take the place of the missing ones: the model and the harness build, and the differential run shows where the changed
+            # source and that model part ways.
+            used = []
+            base = os.path.join(os.path.dirname(os.path.dirname(os.path.abspath(__file__))), 'baseline')
+            try:
+                man = json.load(open(os.path.join(base, 'manifest.json')))['generators'].get(n, {})
+                for fn in man.get('coq', []):
+                    write_if_changed(os.path.join(a.out, fn), open(os.path.join(base, 'coq', fn), encoding='utf-8').read()); used.append(fn)
+                if a.harness_gen:
+                    os.makedirs(a.harness_gen, exist_ok=True)
+                    for fn in man.get('harness', []):
+                        write_if_changed(os.path.join(a.harness_gen, fn), open(os.path.join(base, 'harness', fn), encoding='utf-8').read()); used.append('harness:' + fn)
+            except Exception:
+                pass
             with open(marker, 'w') as f: f.write(repr(e) + '\n' + traceback.format_exc())
-            status[n] = {'ok': False, 'error': repr(e)}
+            status[n] = {'ok': False, 'error': repr(e), 'baseline_used': used}
     print(json.dumps(status))
     sys.exit(0 if all(s['ok'] for s in status.values()) else 3)
 
